@@ -76,6 +76,14 @@ impl<'a, 'b> Gen<'a, 'b> {
         }
     }
     fn branch(&mut self) -> Vec<Goal> {
+        // branches made of constant goals only (`true`, `false`, `[true, true]`)
+        if self.s.flag(16) {
+            return match self.s.below(3) {
+                0 => vec![Goal::Succeed],
+                1 => vec![Goal::Fail],
+                _ => vec![Goal::Succeed, Goal::Succeed],
+            };
+        }
         let n = 1 + self.s.below(3);
         (0..n).map(|_| self.goal(true)).collect()
     }
@@ -221,7 +229,16 @@ pub fn eval(c: &Case, ctx: &Ctx) -> CaseInfo {
 fn run_family(bytes: &[u8], ctx: &Ctx) -> CaseInfo {
     let mut s = Source::new(bytes);
     let c = decode(&mut s);
-    eval(&c, ctx)
+    // a third of the cases each: goals built as the macros expand them, with the constructor
+    // functions Disj::from_conjunctions / Conj::from_vec, with nested Disj::new / Conj::new
+    let mode = (bytes.iter().map(|b| *b as u32).sum::<u32>() % 3) as u8;
+    let mut info = crate::build::with_api_mode(mode, || eval(&c, ctx));
+    info.class(match mode {
+        0 => "built-as-macros-expand",
+        1 => "built-with-from_conjunctions",
+        _ => "built-with-Disj::new",
+    });
+    info
 }
 
 /// FD constraints posted BEFORE any domain, variables bound by unification inside the branches,
